@@ -29,7 +29,7 @@ func c20GrowOracle(c c20GrowCase) error {
 	w := newWorkload(1)
 	defer w.shutdown()
 	srv := httptest.NewServer(http.HandlerFunc(webstack.SnapshotHandler))
-	defer srv.Close()
+	defer closeServer(srv)
 	client := &http.Client{}
 	st := statsFor("C20")
 	type parked struct{ ch chan int }
